@@ -112,7 +112,13 @@ _BASE_DIR = [None]
 def base_dir():
     """Scratch directory of this check invocation (marker files of the simulated file system live below it)."""
     if _BASE_DIR[0] is None or not os.path.isdir(_BASE_DIR[0]):
-        import tempfile
+        import tempfile, shutil, glob
+        for old in glob.glob("/var/tmp/dsim_fs.*"):        # left behind by an invocation that was killed: remove after 6 hours
+            try:
+                if time.time() - os.path.getmtime(old) > 6 * 3600:
+                    shutil.rmtree(old, ignore_errors=True)
+            except OSError:
+                pass
         _BASE_DIR[0] = tempfile.mkdtemp(prefix="dsim_fs.", dir="/var/tmp")
     return _BASE_DIR[0]
 
